@@ -268,10 +268,18 @@ def _playback(scratch, h: Harness):
           ["--harness", f"{h.module}::{h.name}", "--exact", "--harness-timeout", f"{h.timeout}s", "--output-format", "terse"]
     env = {"CARGO_TARGET_DIR": str(scratch.dir / "target")}
     rc, out, err, wall = run(cmd, cwd=scratch.repo, env=env, timeout=h.timeout + 900)
-    m = re.search(r"```\n(.*?)```", out, re.S)
+    blocks = re.findall(r"```\n(.*?)```", out, re.S)
     synthesized = False
-    if m:
-        test = m.group(1)
+    if blocks:
+        # one generated test per failing check: keep them all (distinct names)
+        seen = set()
+        tests = []
+        for b in blocks:
+            nm = re.search(r"fn (kani_concrete_playback_[A-Za-z0-9_]+)", b)
+            if nm and nm.group(1) not in seen:
+                seen.add(nm.group(1))
+                tests.append(b)
+        test = "\n".join(tests)
     elif re.search(r"^VERIFICATION:- FAILED", out, re.M):
         # a harness without symbolic input (concrete table case): the failing "input" is
         # the harness itself; run it natively with an empty value vector
@@ -281,21 +289,31 @@ def _playback(scratch, h: Harness):
                 f"    kani::concrete_playback_run(concrete_vals, {h.name});\n}}\n")
     else:
         return {"confirmed": None, "log": (out + err)[-3000:], "values": None}
-    vals = re.findall(r"^\s*//\s*(.+)\n\s*vec!\[([0-9, ]*)\]", test, re.M)
-    values = [{"as_int": a.strip(), "bytes": [int(x) for x in b.split(",") if x.strip()]} for a, b in vals]
-    tname = re.search(r"fn (kani_concrete_playback_[A-Za-z0-9_]+)", test).group(1)
-    # append the generated test to the harness module in the snapshot
+    names = re.findall(r"fn (kani_concrete_playback_[A-Za-z0-9_]+)", test)
+    # append the generated tests to the harness module in the snapshot
     modfile = scratch.repo / h.crate / "src" / f"{h.module}.rs"
     with open(modfile, "a") as fh:
         fh.write("\n" + test + "\n")
-    cmd2, env2 = playback_cmd(scratch, h.crate, tname)
+    prefix = f"kani_concrete_playback_{h.name}"
+    cmd2, env2 = playback_cmd(scratch, h.crate, prefix)
     rc2, out2, err2, wall2 = run(cmd2, cwd=scratch.repo, env=env2, timeout=1800)
     t2 = out2 + err2
+    failed = re.findall(r"test \S*(kani_concrete_playback_[A-Za-z0-9_]+) \.\.\. FAILED", t2)
+    passed = re.findall(r"test \S*(kani_concrete_playback_[A-Za-z0-9_]+) \.\.\. ok", t2)
     confirmed = None
-    if re.search(r"test result: FAILED", t2) and tname in t2:
+    if failed:
         confirmed = True
-    elif re.search(r"test result: ok\. 1 passed", t2):
+    elif passed and len(passed) == len(names):
         confirmed = False
+    # values of the (first) natively failing test, else of the first test
+    pick = failed[0] if failed else (names[0] if names else None)
+    values = []
+    for b in (blocks or []):
+        if pick and pick in b:
+            vals = re.findall(r"^\s*//\s*(.+)\n\s*vec!\[([0-9, ]*)\]", b, re.M)
+            values = [{"as_int": a.strip(), "bytes": [int(x) for x in bb.split(",") if x.strip()]} for a, bb in vals]
+            break
+    tname = pick or prefix
     panic = re.findall(r"panicked at ([^\n]*)\n([^\n]*)", t2)
     if synthesized:
         values = [{"as_int": "(no symbolic input: concrete case inside the harness)", "bytes": []}] if confirmed else None
